@@ -162,6 +162,7 @@ def run(tier):
         c = cls_of.get(b["sc"], "")
         return keyfn(b) + "." + c
     chk.exec_and_validate("T_EC", cmds, key, accel=True, families=("bits", "big"))
+    chk.first_use("T_EC", cmds, key, accel=True, families=("bits", "big"))
     return chk.finish(
         "model_checking",
         "extracted programs: the Add/Double bodies parsed from the current tree (go/ast) are executed by TLC on toy "
